@@ -26,15 +26,17 @@ theorem keyOf_pruned (st : Bool) (U : Table D) (x : Nat) : keyOf (removeCensored
 /-- **`fix_exts` of a ported graph is ported into the pruned table**, with the same ports, members and internal links -/
 theorem pgraph_fix {U : Table D} {K : Nat} {st : Bool} {join0 : D → D → Bool} {nodes : List (Node D)}
     {port : Nat → Dir → Nat × Dir} {members : Nat → List Nat} {lk : Walk.Link}
-    (pg : PGraph U K st join0 nodes port members lk) (wf : WF U K st) (hes2 : ExtSym2 U st) :
+    (pg : PGraph U K st join0 nodes port members lk) (wf : WF U K st) (hes2 : ExtSym2 U st)
+    (valid : Option (List Nat))
+    (hvalid : ∀ t, t < nodes.length → (match valid with | some vs => vs.contains t | none => true) = true) :
     PGraph (removeCensoredExts st U) K st join0
-      (fixExts (⟨K, nodes, st⟩ : Graph.G D) (some (List.range nodes.length))).nodes port members lk := by
+      (fixExts (⟨K, nodes, st⟩ : Graph.G D) valid).nodes port members lk := by
   generalize hg0 : (⟨K, nodes, st⟩ : Graph.G D) = g0
   have hn0 : g0.nodes = nodes := by rw [← hg0]
   have hK0 : g0.K = K := by rw [← hg0]
   have hst0 : g0.stranded = st := by rw [← hg0]
-  have sh := fixExts_shape g0 (some (List.range nodes.length))
-  generalize hg1 : fixExts g0 (some (List.range nodes.length)) = g1 at sh
+  have sh := fixExts_shape g0 valid
+  generalize hg1 : fixExts g0 valid = g1 at sh
   have hlen1 : g1.nodes.length = nodes.length := by rw [shape_length g0 g1 sh, hn0]
   have hUlen : (removeCensoredExts st U).length = U.length := (Filter.removeCensored_exact st U).1
   -- every node of g1 is a node of g0 with the same sequence and the exactly pruned byte
@@ -43,7 +45,7 @@ theorem pgraph_fix {U : Table D} {K : Nat} {st : Bool} {join0 : D → D → Bool
     intro i n1 h1
     obtain ⟨n0, h0, _⟩ := shape_get g0 g1 sh i n1 h1
     rw [← hg1] at h1
-    obtain ⟨a, _, _, e⟩ := fixExts_exact g0 (some (List.range nodes.length)) i n0 n1 h0 h1
+    obtain ⟨a, _, _, e⟩ := fixExts_exact g0 valid i n0 n1 h0 h1
     rw [hn0] at h0
     refine ⟨n0, h0, a, fun d b => ?_⟩
     rw [e d b]
@@ -59,9 +61,7 @@ theorem pgraph_fix {U : Table D} {K : Nat} {st : Bool} {join0 : D → D → Bool
       obtain ⟨⟨t, s', f⟩, hl⟩ := Option.isSome_iff_exists.mp this
       obtain ⟨nd, hv, _⟩ := Graph.findLink_sound _ _ _ _ _ _ hl
       have hv' : nodes[t]? = some nd := hv
-      refine ⟨t, s', f, by rw [← hg0]; exact hl, ?_⟩
-      simp only [List.contains_eq_mem, List.mem_range, decide_eq_true_eq]
-      exact (List.getElem?_eq_some_iff.mp hv').1
+      exact ⟨t, s', f, by rw [← hg0]; exact hl, hvalid t (List.getElem?_eq_some_iff.mp hv').1⟩
   -- the pruned entry at a port
   have hent : ∀ (x : Nat) (e0 : Entry D), U[x]? = some e0 → ∃ e1, (removeCensoredExts st U)[x]? = some e1 ∧ e1.key = e0.key ∧
       e1.data = e0.data ∧ ∀ d b, has e1.exts d b ↔ has e0.exts d b ∧ Filter.extTarget st e0.key b d ∈ U.map (·.key) := by
@@ -77,7 +77,7 @@ theorem pgraph_fix {U : Table D} {K : Nat} {st : Bool} {join0 : D → D → Bool
     obtain ⟨e1, he1, hk, _, hx1⟩ := hent _ e0 np0.ent
     refine ⟨e1, ⟨he1, by rw [hseq, hk]; exact np0.term, fun b => ?_, np0.strand⟩, hk⟩
     rw [hex s b, hx1, np0.exts b, Filter.extTarget_eq, (node_target n0 s (port i s) e0 np0 b).2]
-  refine ⟨?_, ?_, ?_, ?_, ?_, ?_, ?_, ?_, ?_, ?_, ?_, ?_⟩
+  refine ⟨?_, ?_, ?_, ?_, ?_, ?_, ?_, ?_, ?_, ?_, ?_, ?_, ?_⟩
   · intro i n1 h1
     obtain ⟨n0, h0, hs, _⟩ := hnode i n1 h1
     rw [hs]; exact pg.len i n0 h0
@@ -110,6 +110,7 @@ theorem pgraph_fix {U : Table D} {K : Nat} {st : Bool} {join0 : D → D → Bool
     obtain ⟨i, hi, hzi⟩ := pg.cover z hz
     exact ⟨i, by rw [hlen1]; exact hi, hzi⟩
   · intro i s hi; rw [hlen1] at hi; exact pg.portMem i s hi
+  · intro i hi; rw [hlen1] at hi; exact pg.portNe i hi
   · intro x d y d' h
     exact linkOf_prune join0 wf hes2 x d y d' (pg.lkSub x d y d' h)
   · intro i hi; rw [hlen1] at hi; exact pg.inner i hi
